@@ -426,6 +426,9 @@ func (c *Client) recv(keepaliveQuit chan<- struct{}, keepaliveDone <-chan struct
 	}
 	defer stopKeepalive()
 
+	// closed when the answer to the latest acknowledgement request has been written
+	var answered chan struct{}
+
 	for {
 		val, err := stanza.NextPacket(c.transport.GetDecoder())
 		if err != nil {
@@ -458,7 +461,18 @@ func (c *Client) recv(keepaliveQuit chan<- struct{}, keepaliveDone <-chan struct
 			// A failed write means the connection is broken: the next read fails too
 			// and reports the loss (error callback and Disconnected event) exactly once,
 			// after the stanzas that were already received have been routed.
-			_ = c.Send(answer)
+			// The answers are written by go routines of their own, one after the other: a peer
+			// that sends more than a window full before it reads again must not stop this loop
+			// from reading, or neither side ever gets out of its write.
+			prev, done := answered, make(chan struct{})
+			answered = done
+			go func() {
+				defer close(done)
+				if prev != nil {
+					<-prev
+				}
+				_ = c.Send(answer)
+			}()
 		case stanza.StreamClosePacket:
 			// TCP messages should arrive in order, so we can expect to get nothing more after this occurs
 			c.transport.ReceivedStreamClose()
